@@ -128,7 +128,15 @@ pub fn gen_packet(r: &mut Rng, o: &PktOpts) -> Vec<u8> {
             continue;
         }
         gen_name(r, &mut p, &mut starts, true, o);
-        let ty = [1u16, 28, 2, 5, 12, 15, 6, 39, 16, 999][r.below(10)];
+        // one record in four has some other type (all of them opaque to the library): every code 3..=65
+        // (MD, MF, MB, AFSDB, RT, SRV, ... which other software gives a name-bearing layout), meta types, private use
+        let ty = if r.chance(1, 4) {
+            let t = [3u16, 4, 7, 8, 9, 10, 11, 13, 14, 17, 18, 19, 20, 21, 22, 23, 24, 25, 26, 27, 29, 30, 31, 32, 33, 34, 35, 36, 37, 38, 40, 42, 43, 44, 45, 46,
+                     47, 48, 49, 50, 51, 52, 53, 55, 56, 57, 58, 59, 60, 61, 62, 63, 64, 65, 99, 249, 250, 251, 252, 253, 254, 255, 256, 257, 258, 32768, 32769, 65280, 65535];
+            t[r.below(t.len())]
+        } else {
+            [1u16, 28, 2, 5, 12, 15, 6, 39, 16, 999][r.below(10)]
+        };
         be16(&mut p, ty);
         be16(&mut p, if r.chance(1, 20) { 3 } else { 1 });
         p.extend(&[if r.chance(1, 8) { r.next() as u8 } else { 0 }, 0, r.next() as u8, r.next() as u8]);
@@ -175,8 +183,26 @@ pub fn gen_packet(r: &mut Rng, o: &PktOpts) -> Vec<u8> {
                 // the compressed reader only looks at bytes.  Keep its label starts.
             }
             _ => {
-                for _ in 0..r.below(6) {
-                    p.push(r.next() as u8);
+                // opaque data; often shaped like what other software would read as (a 16-bit value and) a name,
+                // with or without a compression pointer: the library must carry it verbatim
+                match r.below(5) {
+                    0 => {
+                        be16(&mut p, r.next() as u16);
+                        p.extend(&[0xc0, 12]);
+                    }
+                    1 => p.extend(&[0xc0, 12]),
+                    2 => {
+                        be16(&mut p, r.next() as u16);
+                        p.extend(&[1, b'z', 0]);
+                    }
+                    3 => {
+                        be16(&mut p, r.next() as u16);
+                    }
+                    _ => {
+                        for _ in 0..r.below(6) {
+                            p.push(r.next() as u8);
+                        }
+                    }
                 }
             }
         }
